@@ -19,7 +19,7 @@ def plans(tier, rng):
     for L in range(maxl + 1):
         for sc in itertools.product(HEAL, repeat=L + 1):
             out.append({"kind": "heal", "limit": L, "steps": 0, "thr": 9, "script": list(sc)})
-        for sc in itertools.product(["tools", "plain"], repeat=L + 1):
+        for sc in itertools.product(["tools", "plain", "unknown", "failing"], repeat=L + 1):       # unknown: a tool name that is not registered; failing: a tool that raises
             out.append({"kind": "tools", "limit": L, "steps": 0, "thr": 9, "script": list(sc)})
     for L in range(3):
         for sc in itertools.product(POL, repeat=L + 1):
@@ -144,7 +144,9 @@ class Provider:
             raise Runaway()
         r = self.script[k] if k < len(self.script) else self.script[-1]
         resp = self.prov.LLMResponse(content="", model="m", tokens_used=1, latency_ms=0.0)
-        return (resp, [self.prov.ToolCall(id="c%d" % k, name="t", arguments={})]) if r == "tools" else (resp, [])
+        if r == "plain":
+            return resp, []
+        return resp, [self.prov.ToolCall(id="c%d" % k, name={"tools": "t", "unknown": "nope", "failing": "boom"}[r], arguments={})]
 
 
 def run_tools(mods, p):
@@ -152,6 +154,7 @@ def run_tools(mods, p):
     with contextlib.redirect_stdout(io.StringIO()):
         m = mods["mito"].Mitochondria(silent=True)
         m.register_function("t", lambda **k: 1, "tool")
+        m.register_function("boom", lambda **k: 1 // 0, "failing tool")
         n = mods["nuc"].Nucleus(provider=prov)
         try:
             n.transcribe_with_tools("go", m, max_iterations=p["limit"])
@@ -215,7 +218,7 @@ def run(tier):
                 R.cov["drift_samples"].append(d)
         R.sample(x["sample"], cap=4)
     R.cov["exhaustive"] = True
-    R.cov["rule"] = ("every adversary script for limits 0..4: heal (valid/invalid/echo/raise per attempt), tool loop (tools/plain per round), swarm for max_regenerations 0..2 "
+    R.cov["rule"] = ("every adversary script for limits 0..4: heal (valid/invalid/echo/raise per attempt), tool loop (registered tool / unknown tool / failing tool / plain answer per round), swarm for max_regenerations 0..2 "
                      "(9 worker policies per worker x max_steps 0..4 x 3 entropy thresholds) exhaustively and 3..4 sampled; each run on the real loop with scripted collaborators; "
                      "invocation counters and results judged by TLC. non-trivial = the adversary was invoked more than once")
     R.assumptions += ["generator / worker factory / provider are counting stubs following the script; error threading is checked against the error trace of an independent Chaperone on the previous output",
